@@ -1,12 +1,11 @@
 CONSTANTS
-  Mode = "conc"
   Ns = {0}
   BigQs = {}
   IncMax = 0
   RollNs = {0}
   Callers = {"a", "b", "c"}
-  IncsPer = 2
-  Reads = 2
+  IncsPer = 1
+  Reads = 3
   Start = {0, 6, 7, 8}
   Alg = "total"
   Locked = TRUE
